@@ -78,6 +78,7 @@ func (f *Frame) builtin(b *ssa.Builtin, c *ssa.CallCommon, pos token.Pos) []Val 
 }
 
 func (f *Frame) siteDelete(c *ssa.CallCommon, h, k Val, pos token.Pos) {
+	f.siteDeleteUser(c, h, k, pos)
 	if u, ok := c.Args[0].(*ssa.UnOp); ok && u.Op == token.MUL {
 		if fa, ok := u.X.(*ssa.FieldAddr); ok {
 			st := fa.X.Type().Underlying().(*types.Pointer).Elem()
